@@ -84,7 +84,7 @@ def scenario_list(r, tier):
         ("shrinking", ("ico", (2, r.uniform(4.8e-6, 5.2e-6), (1e-5, -2e-5, 3e-6), (1.0, 0.9, 1.1), 0.08)),
          ("min", 0.995), {"surface_tension": "2e-3", "avg_growth_rate": "-3e-11", "sampling_period": "2.5e-6"}, 120),
         # sheared cell, swap pass on: elongated triangles are swapped, then split / collapsed
-        ("sheared-swap", ("ico", (2, 5e-6, (2e-5, -3e-5, 1e-5), (1.0, 0.1, 2.5), 0.0)), ("max", 0.8),
+        ("sheared-swap", ("ico", (2, 5e-6, (2e-5, -3e-5, 1e-5), (1.0, 0.1, 2.5), 0.07)), ("max", 0.8),
          {"enable_edge_swap_operation": "1", "sampling_period": "2e-6"}, 100),
     ]
     if tier == "thorough":
@@ -92,7 +92,7 @@ def scenario_list(r, tier):
             ("shipped-sphere", ("vtk", "sphere.vtk"), ("max", 0.97), {"sampling_period": "2e-6"}, 100),
             ("shipped-sphere-merge", ("vtk", "sphere.vtk"), ("min", 1.03), {"sampling_period": "4e-6", "enable_edge_swap_operation": "1"}, 100),
             # a flat cell far below l_min: the pass ends with mesh_integrity_exception — the model must report the same exception
-            ("flat-exception", ("ico", (2, 5e-6, (0.0, 0.0, 0.0), (1.0, 0.05, 3.0), 0.0)), ("min", 3.0), {"enable_edge_swap_operation": "1"}, 20),
+            ("flat-exception", ("ico", (1, 5e-6, (1e-5, 0.0, -2e-5), (1.0, 0.05, 3.0), 0.0)), ("min", 3.0), {"enable_edge_swap_operation": "1"}, 20),
             ("coarse-growing", ("ico", (1, 2.4e-6, (r.uniform(-1e-5, 1e-5), 2e-6, -3e-6), (1.0, 0.9, 1.1), 0.05)), ("max", 1.002),
              {"avg_growth_rate": "3e-10", "sampling_period": "1e-6"}, 150),
             ("random-band", ("ico", (2, r.uniform(4.6e-6, 5.4e-6), tuple(r.uniform(-1e-4, 1e-4) for _ in range(3)),
@@ -332,10 +332,11 @@ def oracle(name, P, T, lmin, ov, iters, t, ratio, seed, stats, V):
         if book_tokens(Ra) != book_tokens(Rb) or sa["J"] != sb["J"]:
             # a threshold decision (edge length against l_min² / l_max², triangle score) that flips by rounding is not a violation:
             # it is one if the two meshes were still far from every threshold.  Decide on the state BEFORE the iteration.
-            margin = threshold_margin(ref[k - 1]["cells"][0]["R"], lmin) if k > 0 else threshold_margin(Ra, lmin)
+            swap = str((ov or {}).get("enable_edge_swap_operation", "0")) not in ("0", "false")
+            margin = threshold_margin(ref[k - 1]["cells"][0]["R"], lmin, swap) if k > 0 else threshold_margin(Ra, lmin, swap)
             if k == 0 or margin > 1e3 * tol_rel(ratio, iters):
                 V.fail_input("iteration %d: the bookkeeping state (used slots / triangles / edge index / free queues) of the run translated by %.3g cell sizes differs "
-                             "from the reference run although no edge was within %.2g (relative) of a length threshold" % (sa["iter"], ratio, margin), args)
+                             "from the reference run although no edge length / triangle score was within %.2g (relative) of a threshold" % (sa["iter"], ratio, margin), args)
             else:
                 stats["oracle_threshold_flips"] += 1
             break
@@ -370,8 +371,11 @@ def oracle(name, P, T, lmin, ov, iters, t, ratio, seed, stats, V):
     stats["oracle_worst_deviation_over_size"][str(ratio)] = max(stats["oracle_worst_deviation_over_size"].get(str(ratio), 0.0), worst / SIZE)
 
 
-def threshold_margin(R, lmin):
-    """smallest relative distance of a squared edge length of the dumped mesh to l_min² or l_max²"""
+def threshold_margin(R, lmin, swap=False):
+    """smallest relative distance of a squared edge length of the dumped mesh to l_min² or l_max²; with the swap pass on also the
+    relative distance of a triangle score to triangle_score_min_ = 0.2 and, for the triangles near / below it, the relative gap
+    between their two longest edges (which edge is swapped is decided by `>` between lengths: on a symmetric mesh these are exact
+    ties that rounding breaks differently after a translation)"""
     pos = node_positions(R)
     k = R.index("E")
     ne = int(R[k + 1])
@@ -384,6 +388,26 @@ def threshold_margin(R, lmin):
         pa, pb = pos[a][1], pos[b][1]
         l2 = sum((pa[i] - pb[i]) ** 2 for i in range(3))
         best = min(best, abs(l2 - lo) / lo, abs(l2 - hi) / hi)
+    if swap:
+        kf = R.index("F")
+        nf = int(R[kf + 1])
+        j = kf + 2
+        qmin = 36. / math.sqrt(3.)
+        for _ in range(nf):
+            if R[j + 1] == "0":
+                j += 2
+                continue
+            a, b, c = int(R[j + 2]), int(R[j + 3]), int(R[j + 4])
+            area = vlib.unhex(R[j + 9])
+            j += 10
+            ls = sorted([math.dist(pos[a][1], pos[b][1]), math.dist(pos[b][1], pos[c][1]), math.dist(pos[c][1], pos[a][1])])
+            per = sum(ls)
+            if per == 0.0:
+                continue
+            score = qmin * area / (per * per)
+            best = min(best, abs(score - 0.2) / 0.2)
+            if score < 0.25:
+                best = min(best, (ls[2] - ls[1]) / ls[2] if ls[2] > 0 else 0.0)
     return best
 
 
